@@ -44,6 +44,7 @@ func c11Exec(sc c11Scenario, f c11Fault, hold bool, hang time.Duration) *c11Obs 
 		}
 	}
 	r.finish()
+	r.tally()
 	return o
 }
 
@@ -226,6 +227,12 @@ func (r *c11Runner) finish() {
 		} else if o.cbCount[j] > 1 {
 			r.failf("disconnect callback %d ran %d times", j, o.cbCount[j])
 		}
+	}
+}
+
+func (r *c11Runner) tally() {
+	if r.hang != r.full && len(r.obs.fail) > 0 {
+		atomic.AddInt32(&c11HungFail, 1)
 	}
 }
 
